@@ -401,15 +401,27 @@ func processLogFile(absoluteFileName string, output chan *LogEntryInfo) (err err
 		return err
 	}
 	lineNumber := 0
-	scanner := bufio.NewScanner(f)
-	for scanner.Scan() {
-		logEntryInfo := &LogEntryInfo{
-			RawLogEntry: scanner.Text(),
-			FileInfo:    fileInfo,
-			LineNumber:  lineNumber,
+	// Lines are read with a bufio.Reader: a bufio.Scanner gives up (silently, unless its error is
+	// checked) at the first line longer than 64 KiB, which would leave the rest of the log unverified.
+	reader := bufio.NewReader(f)
+	for {
+		line, readErr := reader.ReadString('\n')
+		if readErr != nil && readErr != io.EOF {
+			return readErr
 		}
-		output <- logEntryInfo
-		lineNumber++
+		if len(line) > 0 {
+			line = strings.TrimSuffix(line, "\n")
+			line = strings.TrimSuffix(line, "\r")
+			logEntryInfo := &LogEntryInfo{
+				RawLogEntry: line,
+				FileInfo:    fileInfo,
+				LineNumber:  lineNumber,
+			}
+			output <- logEntryInfo
+			lineNumber++
+		}
+		if readErr == io.EOF {
+			return nil
+		}
 	}
-	return nil
 }
